@@ -20,7 +20,8 @@ CHECKS = {
              "The same input set, realistic long lines at 40/72/132 columns, all short directive item lists and "
              "every write_lines call made while generating the regression corpus are executed by the real code "
              "and each (input, physical lines) record is accepted or rejected by TLC running the acceptor; "
-             "generated Fortran files are scanned for the 132-column consequence.",
+             "generated Fortran files are scanned for the 132-column consequence. Each writer must wrap at the line length "
+             "of its language (C_line_length for C, C++, Python, Lua; F_line_length for Fortran), taken from the library.",
         note="Trusted: TLC, CommunityModules Json/IOUtils, the probe that tees write_lines output, the "
              "harness's per-item re-execution of recorded calls (checked by equality against the recorded "
              "whole-call output). Bounded: exhaustive only below the stated text length.",
@@ -57,7 +58,8 @@ CHECKS = {
              "enumerations of up to 6 members and depth 3, plain / enum class / enum struct at library, namespace "
              "and class scope, are declared through the real ast.EnumNode and emitted by the real wrapc/wrapf "
              "wrap_enum; TLC evaluates the emitted text under C and Fortran rules and compares with the C++ "
-             "meaning; a batch is compiled with g++, gcc and gfortran and g++'s values are checked against the "
+             "meaning; the parser's own expression tree (printed with every operation parenthesised) must denote the same "
+             "value; a batch is compiled with g++, gcc and gfortran and g++'s values are checked against the "
              "specification's evaluator.",
         note="Trusted: TLC, the harness tokeniser and name lookup, GCC 12 for the compiled batch. Values are "
              "limited to 32 bits; the a - -b spelling (non-standard Fortran) is written with parentheses.",
@@ -116,7 +118,9 @@ CHECKS = {
              "the real generator with all four wrappers on; C definitions (with their debug 'Function:' comments), "
              "bind(C) interfaces, Fortran specifics and the C function each calls, generic interfaces, PyMethodDef "
              "and luaL_Reg tables are parsed from the generated files and TLC decides completeness, uniqueness, "
-             "generic-interface exactness and the prefix + scope + underscore-name shape of every name.",
+             "generic-interface exactness and the prefix + scope + underscore-name shape of every name (functions, generic "
+             "interfaces). Scopes: library, class, namespace, nested namespace, flattened namespace; overload sets of twelve; "
+             "rank-changing fortran_generic entries; character results passed back as an argument, F_CFI off and on.",
         note="Trusted: TLC, the regular-expression readers of generated C/Fortran, PyYAML. Class scope and "
              "bufferify variants are not in the enumerated domain yet (numeric parameter types only).",
     ),
@@ -134,7 +138,8 @@ CHECKS = {
              "directory assignments run through the real command line; every write_output_file call is replayed "
              "through the pass machine, list files and directory listings must equal the reported writes, each "
              "declaration must be present exactly in the languages its effective flag selects; runs differing only in "
-             "wrap_python/wrap_lua must produce identical C and Fortran files.",
+             "wrap_python/wrap_lua must produce identical C and Fortran files. A namespace with an override of its own gets a "
+             "file of a language exactly when that language is on for it.",
         note="Trusted: TLC, the probe on write_output_file, name-based presence detection. setup.py and the "
              "*_types.yaml file are treated as auxiliary files of --outdir.",
     ),
@@ -171,7 +176,9 @@ CHECKS = {
              "Python process through the real main; each run's files must be byte-identical to the same library in "
              "a fresh process, and the verdict names the registries whose digest differed when generation started; "
              "corpus and generated wide libraries are run under pairs of PYTHONHASHSEED values, working directories, "
-             "environments and with a pre-populated output directory; outputs are scanned for host name and clock.",
+             "environments and with a pre-populated output directory; outputs are scanned for host name and clock. A generated "
+             "library with every top-level section of the input file, vectors, owned typed results is run under two names "
+             "in the histories (what one library leaves behind must not show in the next).",
         note="Trusted: TLC, the registry digest (canonical dump), file digests. *.log and *.json debugging files "
              "are not compared. A differing registry digest alone is reported as a suspect, never as a violation.",
     ),
@@ -271,7 +278,9 @@ CHECKS = {
              "function it names (prototype from the generated or the user's header, or a non-static definition in a "
              "generated source) and all struct / derived-type layouts; TLC decides: the bound function exists, same "
              "number of arguments, each dummy interoperable with its parameter, interoperable result, derived types "
-             "match their C structs field by field, registry kinds match their C types.",
+             "match their C structs field by field, registry kinds match their C types. A generated C library (rt-kinds) has one "
+             "function per spelling of every integer and real type, structs written inline and in the declarations form with "
+             "per-member options, user statements that change the return type, and array-of-pointer parameters.",
         note="Trusted: TLC, harness/bindc_parse.py (declaration readers), LP64 sizes. Interfaces bound to user functions "
              "for which the corpus ships no header are counted and not judged. unsigned is treated as the signed kind "
              "of the same size; typed data passed to a generic void * is accepted.",
